@@ -424,3 +424,6 @@ def check(facts, rep, tier, cfg):
         rep.bad("C14.R3", "routing", cwhere, "; ".join(sorted(set(problems))) or "routing arms missing: %s" % sorted(seen_kinds))
     else:
         rep.ok("C14.R3", "routing", cwhere, "/ws -> gate; /health,/version iff !obfs; else fallback")
+    rep.rule("C14.S7", "no new process-wide mutable state (static cell / lock / once-cell) in the files this property is anchored in")
+    import whomay
+    whomay.check_new_statics(facts, rep, "C14.S7", "C14")
